@@ -11,6 +11,8 @@ CB g_cb[2];
 struct Chain { bool armed = false, tried = false, active = false; CO_ERR res = CO_ERR_NONE; uint8_t buf[4]; uint32_t size = 0; uint16_t idx = 0; uint8_t sub = 0; Frame req; bool have_req = false; int cbcount = 0; uint32_t code = 0; };
 Chain g_chain[2];
 Sim *g_sim = nullptr;
+// mode timer-in-callback: the application starts a timer action of its own from inside the completion callback (a retry delay, say); it belongs to the application
+bool g_cbtmr_arm[2] = {false, false}; bool g_cbtmr_made[2] = {false, false}; int16_t g_cbtmr_id[2] = {-1, -1};
 void nop_cb(void *) {}
 void done0(CO_CSDO *c, uint16_t i, uint8_t s, uint32_t code);
 void done1(CO_CSDO *c, uint16_t i, uint8_t s, uint32_t code);
@@ -18,6 +20,7 @@ void done(int n, CO_CSDO *c, uint16_t i, uint8_t s, uint32_t code) {
   Chain &h = g_chain[n];
   if (h.active) { h.cbcount++; h.code = code; return; }          // completion of the chained transfer
   g_cb[n].count++; g_cb[n].code = code; g_cb[n].idx = i; g_cb[n].sub = s; g_cb[n].who = c;
+  if (g_cbtmr_arm[n]) { g_cbtmr_arm[n] = false; g_cbtmr_made[n] = true; g_cbtmr_id[n] = COTmrCreate(&g_sim->node->Tmr, 400000000u, 0, nop_cb, nullptr); }
   if (h.armed) {
     h.armed = false; h.tried = true; size_t before = g_sim->tx.size();
     h.res = COCSdoRequestUpload(c, CO_DEV(h.idx, h.sub), h.buf, h.size, n ? done1 : done0, 50);
@@ -125,6 +128,8 @@ void one_case(Ctx &c) {
       CHECK(c, e2 == CO_ERR_SDO_BUSY, "busy-client-refuses", "a busy client accepted a further request (returned %d)", e2); CHECK(c, cb.count == 0, "exactly-one-callback", "the refused request invoked the callback"); }
     // in a quarter of the undisturbed transfers application timers occupy every remaining slot of the pool while the transfer runs: the transfer holds
     // its one timeout action and needs no second one at any moment (derived from the payload seed, not drawn: the saved witnesses keep their meaning)
+    g_cbtmr_arm[n] = false; g_cbtmr_made[n] = false; g_cbtmr_id[n] = -1;
+    if (c.param == 3 && !oth.open && !ch.armed) g_cbtmr_arm[n] = SplitMix(0xC7A1u ^ pseed).next() % 2 == 0;
     std::vector<int16_t> tight;
     if (!inter_t && !oth.open && !ch.armed && SplitMix(0x7167u ^ pseed).next() % 4 == 0) {
       s.api_begin(); for (int g = 0; g < 64 && s.timers_used() < (int)s.ntmr; g++) { int16_t id = COTmrCreate(&s.node->Tmr, 400000000u, 0, nop_cb, nullptr); if (id < 0) break; tight.push_back(id); } s.api_end("COTmrCreate");
@@ -271,6 +276,12 @@ void one_case(Ctx &c) {
       else { CHECK(c, rcv.size() == size, "download-data", "the server received %zu bytes, the user buffer has %u", rcv.size(), size); for (uint32_t i = 0; i < size; i++) CHECK(c, rcv[i] == orig[i], "download-data", "download of %u bytes: byte %u received as %02X, user buffer holds %02X", size, i, rcv[i], orig[i]); }
     }
     if (!up && conforming) CHECK(c, !memcmp(ub, orig.data(), size), "user-buffer", "a download from a conforming server modified the user buffer");
+    g_cbtmr_arm[n] = false;
+    if (g_cbtmr_made[n] && g_cbtmr_id[n] >= 0) {   // the action the application created in the callback is the application's: still pending, and it alone can delete it
+      s.api_begin(); int16_t r = COTmrDelete(&s.node->Tmr, g_cbtmr_id[n]); s.api_end("COTmrDelete");
+      CHECK(c, r >= 0, "application-timer-untouched", "the timer action %d that the application created inside the completion callback (code %08X) is gone after the transfer: COTmrDelete returned %d", g_cbtmr_id[n], cb.code, r);
+      c.cls("application-timer-created-in-the-completion-callback"); g_cbtmr_made[n] = false;
+    }
     CHECK(c, s.timers_used() - (oth.open ? 1 : 0) == base, "nothing-left-behind", "after the transfer %d timer slot(s) are in use, %d before it (a finished transfer must leave no timer behind)", s.timers_used() - (oth.open ? 1 : 0), base);
     { s.api_begin(); CO_CSDO *again = COCSdoFind(s.node, (uint8_t)n); s.api_end("COCSdoFind"); CHECK(c, again == cl && cl->State == CO_CSDO_STATE_IDLE, "nothing-left-behind", "the client is not idle after completion"); }
     s.clear_tx(); s.clear_ev();
@@ -331,7 +342,8 @@ Registrar reg(Prop{
     "Non-trivial: >= 2 transfers in the case or a segmented transfer. Distinct = distinct decoded choice sequence.",
     {Mode{"random", one_case, false, 1200000, 15000000, 0, 0, 400, 1500},
      Mode{"large-transfer", one_case, false, 3000, 60000, 1, 1, 200, 300},
-     Mode{"nmt-change-while-waiting", one_case, false, 250000, 4000000, 2, 2, 400, 1500}},
+     Mode{"nmt-change-while-waiting", one_case, false, 250000, 4000000, 2, 2, 400, 1500},
+     Mode{"timer-in-callback", one_case, false, 150000, 2500000, 3, 3, 400, 1500}},
     {"timer frequency 1000 Hz (1 ms = 1 tick)", "for uploads the application passes the object's size as buffer size (the client refuses a different announced size by design)"}});
 
 }  // namespace
